@@ -22,6 +22,9 @@ type StepCase struct {
 	Bs         map[string]interface{} `json:"bs"`
 	HasPending bool                   `json:"hasPending"`
 	Pending    interface{}            `json:"pending"`
+	// NilBs: the state has no bindings at all (a state read from
+	// {"node":"start"}); that is a state with empty bindings
+	NilBs bool `json:"nilBs,omitempty"`
 }
 
 func genStep(t *rapid.T) StepCase {
@@ -32,6 +35,9 @@ func genStep(t *rapid.T) StepCase {
 		c.Node = rapid.SampledFrom([]string{"unknown", "error", "@t", ""}).Draw(t, "oddat")
 	}
 	c.Bs = sm.GenBindings(t, "bs")
+	if rapid.IntRange(0, 5).Draw(t, "nilBs") == 0 {
+		c.NilBs, c.Bs = true, map[string]interface{}{}
+	}
 	if rapid.IntRange(0, 3).Draw(t, "hp") > 0 {
 		c.HasPending = true
 		c.Pending = sm.GenMessage(t, "msg")
@@ -63,6 +69,10 @@ func checkStep(c StepCase) (v ev.Verdict) {
 	var stride *core.Stride
 	var serr error
 	st := &core.State{NodeName: c.Node, Bs: match.Bindings(jsongen.CopyMap(c.Bs))}
+	if c.NilBs {
+		st.Bs = nil
+		v.Class("state-without-bindings")
+	}
 	// observe the order in which native guards are consulted
 	type call struct {
 		p    *sm.Prog
